@@ -251,6 +251,31 @@ def rule_rejections(facts):
                     why = "properties byte >= 225"
                 if s_ and s_[2] == ("const", 4) and s_[0] == ("Gt" if truth else "Le") and pat.has_op(s_[1], ("Add",)) and pat.has_op(s_[1], ("Rem",)):
                     why = "lc + lp > 4"
+            if why is None and conds:
+                # the conjunction of the conditions that depend on the control byte alone, under each of its 256 values:
+                # a refusal reached only by values below 0x80 is the format's refusal wherever it is spelled (an arm
+                # `3..=0x7F => Err` of the dispatch, two comparisons, a test hoisted out of parse_lzma).  That 0, 1 and 2
+                # are not refused is C17.R1's dispatch walk.
+                def _leaf(q, v, in_loop=(b is bodies[0])):
+                    if q[0] == "arg" and q[2] == "status":
+                        return v
+                    if in_loop and pat.has_call(q, "read_u8") and q[0] in ("ok", "okp", "try", "call", "cast"):
+                        return v
+                    raise pat.NotEvaluable(q)
+                sat, used = [], 0
+                for v in range(256):
+                    holds, used = True, 0
+                    for (gb, t, cond) in conds:
+                        try:
+                            h = pat._cond_holds(t, cond, lambda q, v=v: _leaf(q, v))
+                        except (pat.NotEvaluable, pat.Overflow, KeyError, TypeError, ValueError):
+                            continue
+                        used += 1
+                        holds = holds and h
+                    if used and holds:
+                        sat.append(v)
+                if sat and all(v < 0x80 for v in sat):
+                    why = "control byte < 0x80 (values %d..%d)" % (sat[0], sat[-1])
             if why:
                 r.ok("guard", {"fn": short(b.name), "rejects": why})
             else:
